@@ -47,14 +47,14 @@ func TestColdStart(t *testing.T) {
 	r := vkit.Start("C04")
 	w := r.NewW()
 	w.Guard(map[string]string{"first_call": scenario}, func() { coldFirst(scenario) })
-	first := map[string]uint64{"5KiB": 5120, "1 000 kB": 1000000, "3MiB": 3 << 20, "7 GB": 7000000000, "1TiB": 1 << 40, "2 EB": 2000000000000000000, "15EiB": 15 << 60, "0 YB": 0, "1 PB": 1000000000000000}
+	first := map[string]uint64{"5KiB": 5120, "1 000 kB": 1000000, "3MiB": 3 << 20, "7 GB": 7000000000, "1TiB": 1 << 40, "2 EB": 2000000000000000000, "15EiB": 15 << 60, "0 YB": 0, "1 PB": 1000000000000000, "20 000 KiB": 20000 << 10, "12345": 12345, "3PiB": 3 << 50, "3EiB": 3 << 60}
 	for text, want := range first {
 		got, err := size.DefaultParser(text, 0)
 		if err != nil || uint64(got) != want {
 			w.Fail(map[string]string{"first_call": scenario, "text": text}, "rendering-round-trip", "DefaultParser("+text+") in a fresh process: "+got.String()+", "+errText(err))
 		}
 	}
-	for _, v := range []uint64{0, 1, 1023, 1024, 5120, 1 << 20, 1<<40 + 1, 3 << 50, 15 << 60, 1<<64 - 1} {
+	for _, v := range []uint64{12345, 20000 << 10, 7000000000, 3 << 60, 0, 1, 1023, 1024, 5120, 1 << 20, 1<<40 + 1, 3 << 50, 15 << 60, 1<<64 - 1} {
 		for sw := 0; sw < 8; sw++ {
 			restore := configure(sw)
 			judge(Case{S: v, Switches: sw, Containers: sw%3 == 0}, w)
